@@ -74,7 +74,8 @@ func (seq Sequence) SetUntil(t time.Time) {
 // NumPeriods returns the number of periods in this Sequence assuming the given
 // width.
 func (seq Sequence) NumPeriods(width int) int {
-	if len(seq) == 0 {
+	if len(seq) == 0 || width == 0 {
+		// (expressions without state, like constants, have no width)
 		return 0
 	}
 	return seq.DataLength() / width
